@@ -182,7 +182,7 @@ class HDDResults(HDDBaseResults):
                 )
                 + ".csv"
             )
-            results = pd.read_csv(key, header=0)
+            results = pd.read_csv(key, header=0, float_precision="round_trip")
             index = results.loc[:, "index"].values
             y_true = results.loc[:, "y_true"].values
             y_pred = results.loc[:, "y_pred"].values
